@@ -6,6 +6,11 @@ R-C10-2: no aliasing of operator arguments, no stale/scratch leaf in the result,
 right-hand sides untouched, extrapolated variants entered only at depth 0, every operator applied
 to vectors of its own level.
 R-C10-3: started from the exact discrete solution (f := A u) the non-extrapolated cycle returns u.
+R-C10-4: glue between the term analysis and the table analyses: Level::computeResidual / directSolveInPlace / smoothing /
+         extrapolatedSmoothing forward their own parameters, all and in order, to the same-named method of the operator
+         member; Level::initializeX constructs, per strategy branch, the class of that strategy into the right member with
+         role-correct arguments; no call site in the library passes two type-compatible arguments swapped
+         with respect to the callee's parameter names.
 """
 import itertools
 
@@ -55,6 +60,57 @@ def exact_rule(a):
         if Fv == U.lin("A", a[2]):
             return U
     return None
+
+
+def plumbing_rules(ck):
+    """R-C10-4: the operator symbols of the term analysis denote the operators the table analyses (C03-C08) interpret"""
+    from gmg import plumbing
+    ck.rule("R-C10-4", "Level's wrappers forward their parameters unchanged and in order to the operator member; its factories build the class of the selected strategy with role-correct arguments; no swapped type-compatible arguments at driver-layer call sites", floor=12)
+    whole = ir.load()
+    for qn in plumbing.WRAPPERS:
+        ck.instance("R-C10-4", "forward " + qn)
+        probs, fn = plumbing.check_forward(whole, qn)
+        ck.analysed(fn)
+        if probs:
+            ck.violation("R-C10-4", "forward:%s" % qn.split("::")[1], ir.locstr(fn), "%s %s" % (qn, "; ".join(probs)))
+        else:
+            ck.ok("R-C10-4", "forward " + qn, sample={"wrapper": qn, "forwards to": "%s->%s(%s)" % (plumbing.WRAPPERS[qn] + (", ".join(p["name"] for p in fn["params"]),))})
+    for qn in plumbing.FACTORIES:
+        ck.instance("R-C10-4", "factory " + qn)
+        probs, fn = plumbing.check_factory(whole, qn)
+        ck.analysed(fn)
+        if probs:
+            ck.violation("R-C10-4", "factory:%s" % qn.split("::")[1], ir.locstr(fn), "%s: %s" % (qn, "; ".join(probs)))
+        else:
+            ck.ok("R-C10-4", "factory " + qn)
+    # swapped arguments anywhere in the library
+    n_sites = 0
+    for qn, fl in whole.functions.items():
+        for fn in fl:
+            loc = ir.locstr(fn)
+            if not loc.startswith(("src/", "include/")):
+                continue
+            for c in plumbing.calls(fn):
+                name = c.get("callee") or c.get("ctor")
+                cands = [f for f in whole.fns(name) if len(f["params"]) == len(c["args"])] if name else []
+                if len(cands) != 1 or len(c["args"]) < 2:
+                    continue
+                if not ir.locstr(cands[0]).startswith(("src/", "include/")):
+                    continue
+                n_sites += 1
+                sw = plumbing.swapped_arguments(whole, c, cands[0])
+                key = "roles %s -> %s at %s" % (qn, name, ir.locstr(c))
+                ck.instance("R-C10-4", key, nontrivial=False)
+                if sw:
+                    i, j, pi, pj = sw[0]
+                    ck.violation("R-C10-4", "swapped:%s:%s" % (qn.split("::")[-1], name.split("::")[-1]), ir.locstr(c),
+                                 "%s passes `%s` for parameter `%s` and `%s` for parameter `%s` of %s (the types convert silently)" % (
+                                     qn, ir.show(c["args"][i]), pi, ir.show(c["args"][j]), pj, name))
+                else:
+                    ck.ok("R-C10-4", key)
+    if n_sites < 40:
+        raise ir.AnalysisBroken("only %d driver-layer call sites with two or more arguments were resolved (>= 40 confirmed by hand)" % n_sites)
+    ck.extra["driver_call_sites_checked_for_swapped_arguments"] = n_sites
 
 
 def main(tier):
@@ -149,6 +205,7 @@ def main(tier):
                         else:
                             ck.violation("R-C10-3", "%s:fixed-point" % qn.split("::")[1], ir.locstr(fn),
                                          "%s: started from the exact discrete solution the cycle returns %s" % (what, show(z)[:600]))
+    plumbing_rules(ck)
     ck.extra["modes"] = n_modes
     ck.extra["mode_space"] = {"cycle functions": 6, "L": Ls, "(nu1,nu2)": nus, "full_grid_smoothing": "both for extrapolated variants"}
     return ck.finish(
